@@ -5,14 +5,21 @@ import os
 
 VERIF = os.path.dirname(os.path.dirname(os.path.abspath(__file__)))
 
-CLAIMED = {
-    "C18": {
-        "technique": "Lean 4 refinement proof (M-SYM ⊑ nested-map spec) + differential correspondence on the real SymbolTable",
-        "text": "Machine-checked refinement: for every case-folding function, every number of scopes and every insertion history, each ISymbolTable query of the model equals the nested-case-insensitive-map specification (lookup, with-parent, own-scope, all-matches, iteration, merged listing). The model is tied to src/analyzers_v2/symbol_table.rs by running the same exhaustive/random operation sequences on the real table and on the model; the real answers are also compared with the specification itself.",
-        "note": "Trusted: Lean kernel (+leanchecker), axioms ⊆ {propext, Classical.choice, Quot.sound}; hand-written model tied by correspondence only (exhaustive short histories + random); HashMap as finite map, to_uppercase as arbitrary norm (ASCII in runs); acyclic chains (cycles: C14).",
-        "design": "§4 C18",
-    },
-}
+def load_claimed():
+    """one JSON fragment per claimed property in manifest.d/ (text, design, note, technique)"""
+    d = {}
+    md = os.path.join(VERIF, "manifest.d")
+    for fn in sorted(os.listdir(md)):
+        if fn.endswith(".json"):
+            d[fn[:-5]] = json.load(open(os.path.join(md, fn)))
+    return d
+
+
+CLAIMED = load_claimed()
+HOOK_COMMITS = [
+    "eb8946f verif hooks: process-wide event sink (src/verif_hooks.rs), compiled only with --cfg gold_lsp_verif",
+    "46f7073 verif hooks: trace events in threadpool.rs, only with --cfg gold_lsp_verif",
+]
 
 PENDING_REASON = "not claimed yet: model and theorems for this property are still being built in this round (see DESIGN.md §7 build order); no check is registered until its evidence is real"
 
@@ -32,7 +39,7 @@ def main():
                 "evidence_file": "/verif/evidence/%s.json" % pid,
                 "replay_cmd_template": "./check %s --replay {path}" % pid,
                 "engine": "lean4-proof+correspondence",
-                "level_claimed": {"category": "proof", "text": c["text"], "design_ref": "DESIGN.md " + c["design"]},
+                "level_claimed": {"category": "proof", "text": c["text"], "design_ref": c["design"]},
                 "level_note": c["note"],
                 "technique": c["technique"],
             })
@@ -45,7 +52,7 @@ def main():
             "guard": "--cfg gold_lsp_verif",
             "enable": "RUSTFLAGS='--cfg gold_lsp_verif' (harness/.cargo/config.toml for the harness crate that compiles /repo/src by path; env for the real binary built into /verif/.cache/repo-target)",
             "baseline_off_cmd": "cd /repo && cargo test --workspace --no-fail-fast --offline",
-            "source_commits": [],
+            "source_commits": HOOK_COMMITS,
             "add_only": True,
         },
         "engines": [{
